@@ -6,6 +6,7 @@ import (
 	"io"
 	"log/slog"
 	"net"
+	"sync"
 	"sync/atomic"
 
 	"github.com/ovh/kmip-go"
@@ -47,6 +48,8 @@ type conn struct {
 	cancel func(error)
 	closed atomic.Bool
 	logger *slog.Logger
+	// loops tracks the readloop and writeloop goroutines so that Close can wait for them
+	loops sync.WaitGroup
 }
 
 // newConn initializes and returns a new conn instance for handling KMIP protocol communication.
@@ -67,6 +70,7 @@ func newConn(netCon net.Conn, ctx context.Context, logger *slog.Logger) *conn {
 		logger: logger,
 	}
 	c.tx.Store(make(chan txMsg))
+	c.loops.Add(2)
 	go c.readloop()
 	go c.writeloop()
 	return c
@@ -74,10 +78,12 @@ func newConn(netCon net.Conn, ctx context.Context, logger *slog.Logger) *conn {
 
 // Close terminates the connection by invoking the terminate method with net.ErrClosed.
 // It is intended to close the underlying resources associated with the connection.
-// Note: Goroutines associated with the connection are not currently awaited before closure.
+// It waits for the read and write goroutines of the connection to exit.
 func (c *conn) Close() error {
-	return c.terminate(net.ErrClosed)
-	// TODO: Wait exit of goroutines
+	err := c.terminate(net.ErrClosed)
+	// Wait for readloop and writeloop: the context is canceled and the stream is closed, so both return promptly
+	c.loops.Wait()
+	return err
 }
 
 // terminate gracefully shuts down the connection by performing the following steps:
@@ -122,6 +128,7 @@ func (c *conn) checkAvailable() error {
 // or errors to the rx channel. If a terminal error occurs or the context is done, it terminates
 // the loop and closes the rx channel. This function is intended to run as a goroutine.
 func (c *conn) readloop() {
+	defer c.loops.Done()
 	defer c.logger.Debug("Exittig readloop")
 	defer close(c.rx)
 	for !c.closed.Load() {
@@ -160,6 +167,7 @@ func (c *conn) readloop() {
 // the connection on failure. The loop exits when the connection is closed or the context is done.
 // Any remaining messages in the tx channel are not drained when the context is canceled (see TODO).
 func (c *conn) writeloop() {
+	defer c.loops.Done()
 	defer c.logger.Debug("Exittig writeloop")
 	tx := c.tx.Load().(chan txMsg)
 	for !c.closed.Load() {
